@@ -102,10 +102,12 @@ NextLevel(L, nb) ==
   UNION {{s \cup {u} : u \in {w \in nb[Max(s)] : w > Max(s) /\ \A x \in s : w \in nb[x]}} : s \in L}
 RECURSIVE GrowFrom(_, _, _, _)
 GrowFrom(L, k, d, nb) == IF k >= d \/ L = {} THEN L ELSE L \cup GrowFrom(NextLevel(L, nb), k + 1, d, nb)
-CliquesAlg(n, G, d) ==
-  {{v} : v \in Pts(n)} \cup
-  (IF d < 1 \/ DOMAIN G = {} THEN {} ELSE GrowFrom(DOMAIN G, 1, d, Nbrs(n, G)))
-FlagAlg(n, G, d) == Tab([s \in CliquesAlg(n, G, Hi(d, 1)) |-> Diameter(G, s)])
+CliquesOn(VS, G, d) ==          \* VS: any vertex set containing the end points of the edges
+  {{v} : v \in VS} \cup
+  (IF d < 1 \/ DOMAIN G = {} THEN {} ELSE GrowFrom(DOMAIN G, 1, d, Nbrs(0, G)))
+CliquesAlg(n, G, d) == CliquesOn(Pts(n), G, d)
+FlagOn(VS, G, d)  == Tab([s \in CliquesOn(VS, G, Hi(d, 1)) |-> Diameter(G, s)])
+FlagAlg(n, G, d)  == FlagOn(Pts(n), G, d)
 
 (* arithmetic of the reduction with every intermediate value < 2^31 for p < 2^16 *)
 AddScaledS(c, k, d, p) ==
@@ -135,6 +137,20 @@ RipsDiagramAlgOf(F, dmax, p) ==
   IN  DiagramUpTo(F, q, BarsS(CellSeq(q, p), p), dmax)
 RipsDiagramAlg(n, G, dmax, p) == RipsDiagramAlgOf(FlagAlg(n, G, dmax + 1), dmax, p)
 
+(* a vertex without edge is a component that never dies and nothing else (disjoint union): the   *)
+(* diagram of the vertices that carry an edge, plus one class (0, 0, INF) per isolated vertex.     *)
+(* Equal to RipsDiagramAlg (ThIsolated); lets Trace_Ripser handle 65 536 vertices.                *)
+Touched(G) == UNION DOMAIN G
+AddEssential0(diag, m) ==
+  IF m = 0 THEN diag
+  ELSE LET key(x) == x.dim = 0 /\ x.b = 0 /\ x.d = INFV
+           old == {x \in diag : key(x)}
+           k   == IF old = {} THEN 0 ELSE (CHOOSE x \in old : TRUE).n
+       IN  (diag \ old) \cup {[dim |-> 0, b |-> 0, d |-> INFV, n |-> k + m]}
+RipsDiagramFast(n, G, dmax, p) ==
+  LET VS == Touched(G) IN
+  AddEssential0(IF VS = {} THEN {} ELSE RipsDiagramAlgOf(FlagOn(VS, G, dmax + 1), dmax, p), n - Cardinality(VS))
+
 (* all of dimensions 0..dtop at once: the classes of dimension <= k only depend on the       *)
 (* (k+1)-skeleton (ThSkeleton), so one reduction of the (dtop+1)-skeleton serves every dmax   *)
 RipsBarsFull(n, G, dtop, p) ==
@@ -160,6 +176,7 @@ ThDefAlg(n, G, dmax, p) == RipsDiagramDef(n, G, dmax, p) = RipsDiagramAlg(n, G, 
 ThSkeleton(n, G, dtop, p) ==
   LET full == RipsBarsFull(n, G, dtop, p) IN
   \A k \in 0..dtop : DiagramFromFull(full, k) = RipsDiagramAlg(n, G, k, p)
+ThIsolated(n, G, dmax, p) == RipsDiagramFast(n, G, dmax, p) = RipsDiagramAlg(n, G, dmax, p)
 (* beyond the enclosing radius nothing happens: cutting there, at the largest weight or never *)
 (* gives the same diagram (a cone has the homology of a point)                                 *)
 ThCone(n, W, dmax, p) ==
